@@ -108,12 +108,49 @@ def run(res, tier, rng, table_diffs=()):
         if ans[k] != ans[len(eqs) + k] or not ans[k].startswith("ok"):
             res.violation("two spellings the documentation equates parse to different trees",
                           dict(kind="equivalence", input=[a, b], impl=[ans[k], ans[len(eqs) + k]]))
+    # WHERE IN THE TEXT an expression stands never changes its tree: the same text as the whole program, after a first statement,
+    # after a comment / blank lines, inside a block — in particular at the very beginning of the text (the first token is read
+    # by the parser's constructor, not by its loop), for every prefix operator followed by every binary operator
+    firsts = []
+    for pre in ["-", "!", "- -", "-(", "(", "[", "functie() { 1 }(", "als ja { 1 } anders { 2 } ", "\"s\" ", "1.5 ", "x "]:
+        for op in ["+", "-", "*", "/", "%", "<", "<=", ">", ">=", "==", "!=", "&&", "||", "="]:
+            close = ")" if pre.endswith("(") else ("]" if pre == "[" else "")
+            body = "a" if pre.strip() in ("-", "!", "- -") or pre.endswith("(") or pre == "[" else ""
+            firsts.append("%s%s%s %s b %s c" % (pre, body, close, op, rng.pick(["+", "*", "==", "&&"])))
+            firsts.append("%s%s%s %s b" % (pre, body, close, op))
+    firsts += [p for p in directed if p and not p.startswith("//")][:40]
+    qa = core.impl(["parse " + hx(t) for t in firsts] + ["parse " + hx("0; " + t) for t in firsts] + ["parse " + hx("// c\n\n " + t) for t in firsts])
+    nf = len(firsts)
+    for k, t in enumerate(firsts):
+        a, b, c = qa[k], qa[nf + k], qa[2 * nf + k]
+        res.seen("F" + t)
+        res.count("first-position")
+        if a.startswith("ok {") and b.startswith("ok {(expr (int 0)) "):
+            b2 = "ok {" + b[len("ok {(expr (int 0)) "):]
+        elif a == "ok {}" and b == "ok {(expr (int 0))}":
+            b2 = a
+        else:
+            b2 = b if not a.startswith("ok") else None
+        if (a.startswith("ok") and (b2 != a or c != a)) or (not a.startswith("ok") and (b.startswith("ok") or c.startswith("ok"))):
+            bad += 1
+            if bad <= 8:
+                res.violation("the same text parses to a different tree at the very beginning of the program than after a first statement or a comment",
+                              dict(kind="position", input=[t, "0; " + t, "// c\n\n " + t], impl=[a, b, c]))
     if table_diffs:
         res.violation("the model's tables differ from the code's (precedence table)", dict(kind="tables", diffs=list(table_diffs)[:10], unchecked="table correspondence"), no_input=True)
 
 
 def replay(res, rp):
     inp = rp["input"]
+    if isinstance(inp, list) and rp.get("kind") == "position":
+        ans = core.impl(["parse " + hx(a) for a in inp])
+        print(ans)
+        a, b, c = ans
+        b2 = "ok {" + b[len("ok {(expr (int 0)) "):] if b.startswith("ok {(expr (int 0)) ") else b
+        if a.startswith("ok") and (b2 != a or c != a):
+            print("VIOLATION property=C07 replay=replay")
+            return 1
+        return 0
     if isinstance(inp, list):
         ans = core.impl(["parse " + hx(a) for a in inp])
         print(ans)
